@@ -353,8 +353,7 @@ Theorem run_meets_spec08 c script :
   guard08 c script = true -> C08Spec.spec_ok c script (observe (run_sm c script)) = true.
 Proof.
   unfold guard08. intros G.
-  apply andb_true_iff in G. destruct G as [G Gd]. apply andb_true_iff in G. destruct G as [G Gc].
-  apply andb_true_iff in G. destruct G as [Ga Gb].
+  apply andb_true_iff in G. destruct G as [G Gd]. apply andb_true_iff in G. destruct G as [Ga Gb].
   unfold C08Spec.spec_ok. destruct (c_start_fail c) eqn:SF.
   - (* cannot be started *)
     cbn [andb] in Ga. apply negb_true_iff in Ga.
@@ -386,8 +385,7 @@ Proof.
       destruct (s_timer (fst (run_sm c script))); try (elim Tm; reflexivity); reflexivity.
     + (* a worker dies while the process runs *)
       destruct (death_while_running c script) as [[w x]|] eqn:D; [|reflexivity].
-      assert (Hw : w <> WIn) by (intros ->; discriminate Gc).
-      destruct (dead_worker_bounded_partial c script w x S D Hw) as (o & Po & Fo & _).
+      destruct (dead_worker_bounded c script w x S D) as (o & Po & Fo & _).
       unfold run_sm in Po.
       destruct (drain_done_facts c _ o I1 Po) as [Fl Tm].
       unfold observe, run_sm. cbn [o_outcome o_timer_armed o_flag]. rewrite Po, Fo, Fl.
@@ -406,15 +404,14 @@ Definition with_reaped (o : sm_obs) : sm_obs :=
 
 Definition guard08_narrow (c : cfg) (script : list ev) : bool :=
   (* F-C08a *) negb (c_start_fail c && c_pty c) &&
-  (* F-C08b *) negb (c_pty c && existsb (fun e => match e with EExitKbd _ => true | _ => false end) script) &&
-  (* F-C08c *) match C08Spec.death_while_running c script with Some (WIn, _) => false | _ => true end.
+  (* F-C08b *) negb (c_pty c && existsb (fun e => match e with EExitKbd _ => true | _ => false end) script).
 
 Theorem run_meets_spec08_upto_reaped c script :
   guard08_narrow c script = true ->
   C08Spec.spec_ok c script (with_reaped (observe (run_sm c script))) = true.
 Proof.
   unfold guard08_narrow. intros G.
-  apply andb_true_iff in G. destruct G as [G Gc]. apply andb_true_iff in G. destruct G as [Ga Gb].
+  apply andb_true_iff in G. destruct G as [Ga Gb].
   unfold C08Spec.spec_ok. destruct (c_start_fail c) eqn:SF.
   - cbn [andb] in Ga. apply negb_true_iff in Ga.
     assert (S : start_raises c = true) by (unfold start_raises; rewrite SF, Ga; reflexivity).
@@ -440,8 +437,7 @@ Proof.
       unfold observe. cbn [o_outcome o_timer_armed o_flag o_stop]. rewrite Po, Doc, Fl, St.
       destruct (s_timer (fst (run_sm c script))); try (elim Tm; reflexivity); reflexivity.
     + destruct (death_while_running c script) as [[w x]|] eqn:D; [|reflexivity].
-      assert (Hw : w <> WIn) by (intros ->; discriminate Gc).
-      destruct (dead_worker_bounded_partial c script w x S D Hw) as (o & Po & Fo & _).
+      destruct (dead_worker_bounded c script w x S D) as (o & Po & Fo & _).
       unfold run_sm in Po.
       destruct (drain_done_facts c _ o I1 Po) as [Fl Tm].
       unfold with_reaped, observe, run_sm. cbn [o_outcome o_timer_armed o_flag]. rewrite Po, Fo, Fl.
